@@ -1,13 +1,13 @@
 // counterexample for c_container::c10_step_waiting_box_header (property C10) found by CBMC; replay with
 //   /verif/bin/check --replay /verif/replays/C10/c10_step_waiting_box_header.rs
-// repo: {"head": "bfb72e3c77e6e19b4f37267cd11f012b296dcf7c", "dirty": false, "diff_sha256": "e3b0c44298fc1c14"}
+// repo: {"head": "736f7b025cf48e86662bf74aeb57bde61d8d7ccc", "dirty": true, "diff_sha256": "0d41a638d70b1b4d"}
 // module: c_container
 /// Test generated for harness `c_container::c10_step_waiting_box_header` 
 ///
-/// Check for `assertion`: "assertion failed: got == want"
+/// Check for `assertion`: "assertion failed: state_matches(&spec, &post)"
 
 #[test]
-fn kani_concrete_playback_c10_step_waiting_box_header_16231167174737442393() {
+fn kani_concrete_playback_c10_step_waiting_box_header_4694525493983669407() {
     let concrete_vals: Vec<Vec<u8>> = vec![
         // 0
         vec![0],
@@ -17,42 +17,6 @@ fn kani_concrete_playback_c10_step_waiting_box_header_16231167174737442393() {
         vec![0],
         // 1
         vec![1],
-        // 98
-        vec![98],
-        // 114
-        vec![114],
-        // 111
-        vec![111],
-        // 98
-        vec![98],
-        // 2
-        vec![2],
-        // 255
-        vec![255],
-        // 128
-        vec![128],
-        // 254
-        vec![254],
-        // 0
-        vec![0],
-        // 0
-        vec![0],
-        // 1
-        vec![1],
-        // 0
-        vec![0],
-        // 0
-        vec![0],
-        // 0
-        vec![0],
-        // 0
-        vec![0],
-        // 1
-        vec![1],
-        // 9ul
-        vec![9, 0, 0, 0, 0, 0, 0, 0],
-        // 0
-        vec![0],
         // 106
         vec![106],
         // 120
@@ -61,28 +25,58 @@ fn kani_concrete_playback_c10_step_waiting_box_header_16231167174737442393() {
         vec![108],
         // 112
         vec![112],
-        // 1
-        vec![1],
-        // 136
-        vec![136],
+        // 0
+        vec![0],
+        // 0
+        vec![0],
+        // 0
+        vec![0],
+        // 0
+        vec![0],
+        // 0
+        vec![0],
+        // 0
+        vec![0],
+        // 0
+        vec![0],
+        // 21
+        vec![21],
         // 128
         vec![128],
-        // 108
-        vec![108],
+        // 127
+        vec![127],
+        // 191
+        vec![191],
         // 255
         vec![255],
+        // 20ul
+        vec![20, 0, 0, 0, 0, 0, 0, 0],
         // 1
         vec![1],
-        // 0ul
-        vec![0, 0, 0, 0, 0, 0, 0, 0],
+        // 18446744073709551615ul
+        vec![255, 255, 255, 255, 255, 255, 255, 255],
+        // 128
+        vec![128],
+        // 255
+        vec![255],
+        // 255
+        vec![255],
+        // 255
+        vec![255],
+        // 0
+        vec![0],
+        // 1
+        vec![1],
+        // 8388619ul
+        vec![11, 0, 128, 0, 0, 0, 0, 0],
         // 0
         vec![0],
         // 1
         vec![1],
         // 2
         vec![2],
-        // 50298879
-        vec![255, 127, 255, 2],
+        // 8372222
+        vec![254, 191, 127, 0],
     ];
     kani::concrete_playback_run(concrete_vals, c10_step_waiting_box_header);
 }
